@@ -134,3 +134,61 @@ Proof. intros A y x. assert (W : wfM QcO 2 A) by (repeat constructor).
   { unfold x. vm_compute. repeat f_equal; apply Qc_is_canon; reflexivity. }
   split; [|split; [exact S|split; assumption]].
   apply (ista_fixed_point_kkt QcO 2 A y W (Q2Qc (1#2)) (Q2Qc 2) x); auto. vm_compute; discriminate. Qed.
+
+(* ======================= ISTA on COMPLEX data (Solvers/ISTAComplex.v) =======================
+   complex numbers = pairs over the ordered field; the moduli |u_i| of the vector that is thresholded and |x_i|
+   of the current iterate are supplied values constrained by  m >= 0, m*m = re^2+im^2  (predicate [moduli]);
+   the new iterate has moduli max(m - thresh, 0).  Objective as documented: ||y - A x||^2 + eps sum|x_i|
+   (= 2 * (1/2 ||y - A x||^2 + (eps/2) sum|x_i|), thresh = eps*alpha/2 as in ISTA.setup). *)
+From PV Require Import ISTAComplex.
+
+(* quadratic majoriser (no modulus involved), every p, every size *)
+Theorem C13_ista_c_majoriser : forall (F : OrdField) (n : nat) (A : list (list (CPR F))) (y : list (CPR F)),
+  wfM (CPR F) n A -> length y = length A -> forall (alpha : F) (x p : list (CPR F)), length x = n -> length p = n ->
+  (forall d, length d = n -> rle F (alpha * nrm2c F (mv (CPR F) A d)) (nrm2c F d)) ->
+  rle F (alpha * nrm2c F (vsub (CPR F) y (mv (CPR F) A p)))
+        (alpha * nrm2c F (vsub (CPR F) y (mv (CPR F) A x)) - alpha * alpha * nrm2c F (gradc F n A y x)
+         + nrm2c F (vsub (CPR F) p (pre F n A y alpha x))).
+Proof. exact ista_c_majoriser. Qed.
+Print Assumptions C13_ista_c_majoriser.
+
+(* one complex ISTA step from ANY x does not increase the objective *)
+Theorem C13_ista_c_descent : forall (F : OrdField) (n : nat) (A : list (list (CPR F))) (y : list (CPR F)),
+  wfM (CPR F) n A -> length y = length A -> forall (alpha eps : F) (x : list (CPR F)) (mx mu : list F),
+  length x = n -> rle F 0 eps -> rlt F 0 alpha ->
+  (forall d, length d = n -> rle F (alpha * nrm2c F (mv (CPR F) A d)) (nrm2c F d)) ->
+  moduli F x mx -> moduli F (pre F n A y alpha x) mu ->
+  rle F (obj_c F A y eps (step_c F n A y alpha eps x mu) (map (kmod F (thresh F eps alpha)) mu)) (obj_c F A y eps x mx).
+Proof. exact ista_c_descent. Qed.
+Print Assumptions C13_ista_c_descent.
+
+(* the whole run is monotone (moduli supplied and correct at every iteration), from any starting point *)
+Theorem C13_ista_c_run_monotone : forall (F : OrdField) (n : nat) (A : list (list (CPR F))) (y : list (CPR F)),
+  wfM (CPR F) n A -> length y = length A -> forall (alpha eps : F), rle F 0 eps -> rlt F 0 alpha ->
+  (forall d, length d = n -> rle F (alpha * nrm2c F (mv (CPR F) A d)) (nrm2c F d)) ->
+  forall mus x mx, length x = n -> moduli F x mx -> good_mus F n mus A y alpha eps x ->
+  forall xm, In xm (run_c F n mus A y alpha eps x) ->
+  moduli F (fst xm) (snd xm) /\ rle F (obj_c F A y eps (fst xm) (snd xm)) (obj_c F A y eps x mx).
+Proof. exact ista_c_run_monotone. Qed.
+Print Assumptions C13_ista_c_run_monotone.
+
+(* Hermitian step-size certificate: alpha A^H A <= I decided exactly on the real embedding [[Re,-Im],[Im,Re]] *)
+Theorem C13_premise_c_of_psd : forall (F : OrdField) (n : nat) (alpha : F) (A : list (list (CPR F))),
+  wfM (CPR F) n A -> psd F (n + n) (stepmat F (n + n) alpha (emb F A)) = true ->
+  forall d : list (CPR F), length d = n -> rle F (alpha * nrm2c F (mv (CPR F) A d)) (nrm2c F d).
+Proof. exact premise_c_of_psd. Qed.
+Print Assumptions C13_premise_c_of_psd.
+
+(* non-vacuity: a 2x2 complex problem over Qc (lambda_max(A^H A) < 8, alpha = 1/8) with the premise from the
+   certificate, and Pythagorean moduli: x = (3+4i, 0), |x| = (5, 0) *)
+Example C13_ista_c_ex :
+  let A : list (list (CPR QcO)) := [[(Q2Qc 1, Q2Qc 1); (Q2Qc 2, Q2Qc 0)]; [(Q2Qc 0, Q2Qc (-1)); (Q2Qc 1, Q2Qc 0)]] in
+  let alpha : QcO := Q2Qc (1#8) in
+  wfM (CPR QcO) 2 A /\ rlt QcO 0 alpha /\
+  (forall d, length d = 2%nat -> rle QcO (alpha * nrm2c QcO (mv (CPR QcO) A d)) (nrm2c QcO d)) /\
+  moduli QcO [(Q2Qc 3, Q2Qc 4); (Q2Qc 0, Q2Qc 0)] [Q2Qc 5; Q2Qc 0].
+Proof. intros A alpha. assert (W : wfM (CPR QcO) 2 A) by (repeat constructor). split; [exact W|]. split; [|split].
+  - split; [vm_compute; discriminate | intro E; discriminate E].
+  - apply (premise_c_of_psd QcO 2 alpha A W). vm_compute; reflexivity.
+  - repeat constructor; try (vm_compute; discriminate); apply Qc_is_canon; vm_compute; reflexivity.
+Qed.
